@@ -15,6 +15,7 @@ type item struct {
 	text  string
 	isHyp bool
 	needs string // prelude symbol this item mentions; dropped from queries whose modules do not declare it
+	blk   int    // index of the basic block that produced it (-1: none)
 }
 
 type Obligation struct {
@@ -31,6 +32,7 @@ type Obligation struct {
 	Result   *SolveResult `json:"result,omitempty"`
 	retTerms []string
 	relaxed  bool
+	onlyBlk  map[int]bool // when set: hypotheses produced by other basic blocks are left out (case-split obligations)
 }
 
 type heapInfo struct {
@@ -113,12 +115,18 @@ func (tr *fnTrans) errorf(format string, a ...interface{}) {
 	tr.errs = append(tr.errs, fmt.Sprintf(format, a...))
 }
 
-func (tr *fnTrans) decl(s string) { tr.items = append(tr.items, item{text: s, isHyp: false}) }
+func (tr *fnTrans) curBlk() int {
+	if tr.cur == nil {
+		return -1
+	}
+	return tr.cur.Index
+}
+func (tr *fnTrans) decl(s string) { tr.items = append(tr.items, item{text: s, isHyp: false, blk: tr.curBlk()}) }
 func (tr *fnTrans) hyp(s string) {
 	if s == "true" {
 		return
 	}
-	tr.items = append(tr.items, item{text: "(assert " + s + ")", isHyp: true})
+	tr.items = append(tr.items, item{text: "(assert " + s + ")", isHyp: true, blk: tr.curBlk()})
 }
 
 func (tr *fnTrans) fresh(prefix string) string {
